@@ -410,6 +410,8 @@ class Wrapf(util.WrapperMixin):
             node - ast.EnumNode
             fileinfo - ModuleInfo
         """
+        if not node.wrap.fortran:
+            return
         options = node.options
         ast = node.ast
         output = fileinfo.enum_impl
